@@ -63,7 +63,7 @@ class OutgoingBallsHandler(BallDeviceStateHandler):
         try:
             self._incoming_ball_which_may_skip_obj.remove(incoming_ball)
         except ValueError as e:
-            if self.unit_test:
+            if self.ball_device.unit_test:
                 # re-raise this in tests
                 raise e
             self.warning_log("Double remove of incoming ball. This is likely a bug! "
